@@ -219,7 +219,7 @@ def h_len(eng, p, fc, node, self_v, args, kwargs):
                     q2.assume(c >= 0)
                     out.append(Res(q2, VInt(c)))
                 elif cls == 'deque':
-                    out.append(Res(q2, VInt(z3.Length(eng.deque_items(q2, v)))))
+                    out.append(Res(q2, VInt(eng.deque_len(q2, v))))
                 else:
                     out.append(eng.raise_(q2, 'TypeError', eng.src(node)))
         elif isinstance(v, VNone) or is_numlike(v):
@@ -350,25 +350,25 @@ def h_range(eng, p, fc, node, self_v, args, kwargs):
     return out
 
 
-def dict_keys_seq(eng, p, d):
-    """abstract sequence of the keys of dict d (insertion order), with the finite-map facts"""
-    ks = fresh('keys', z3.SeqSort(I))
+def dict_keys_arr(eng, p, d):
+    """abstract enumeration of the keys of dict d in insertion order: an array ka[0..n) with the finite-map facts
+    (arrays, not sequences: z3 E-matches on select patterns reliably)"""
+    ka = fresh('keys', z3.ArraySort(I, I))
     dom = harr(p, '$dom')
     ordr = harr(p, '$ord')
     card = z3.Select(harr(p, '$card'), d)
     j, j2, k = z3.Ints('kj kj2 kk')
     pos = z3.Function(Path.fresh_name('pos'), I, I)
-    p.assume(z3.Length(ks) == card)
     p.assume(card >= 0)
-    p.assume(z3.ForAll([j], z3.Implies(z3.And(j >= 0, j < z3.Length(ks)),
-                                       z3.And(z3.Select(dom, d, ks[j]), pos(ks[j]) == j)), patterns=[ks[j]]))
+    p.assume(z3.ForAll([j], z3.Implies(z3.And(j >= 0, j < card),
+                                       z3.And(z3.Select(dom, d, ka[j]), pos(ka[j]) == j)), patterns=[ka[j]]))
     p.assume(z3.ForAll([k], z3.Implies(z3.Select(dom, d, k),
-                                       z3.And(pos(k) >= 0, pos(k) < z3.Length(ks), ks[pos(k)] == k)),
+                                       z3.And(pos(k) >= 0, pos(k) < card, ka[pos(k)] == k)),
                        patterns=[z3.Select(dom, d, k)]))
-    p.assume(z3.ForAll([j, j2], z3.Implies(z3.And(j >= 0, j < j2, j2 < z3.Length(ks)),
-                                           z3.Select(ordr, d, ks[j]) < z3.Select(ordr, d, ks[j2])),
-                       patterns=[z3.MultiPattern(ks[j], ks[j2])]))
-    return ks
+    p.assume(z3.ForAll([j, j2], z3.Implies(z3.And(j >= 0, j < j2, j2 < card),
+                                           z3.Select(ordr, d, ka[j]) < z3.Select(ordr, d, ka[j2])),
+                       patterns=[z3.MultiPattern(ka[j], ka[j2])]))
+    return ka, card
 
 
 def h_list(eng, p, fc, node, self_v, args, kwargs):
@@ -379,7 +379,9 @@ def h_list(eng, p, fc, node, self_v, args, kwargs):
             for (q2, cls) in eng.classof(q, v):
                 if cls != 'dict':
                     raise Unsupported('list(%s)' % cls)
-                out.append(Res(q2, VList(dict_keys_seq(eng, q2, v.t), 'int')))
+                from .engine_stmt import VKeys
+                ka, n = dict_keys_arr(eng, q2, v.t)
+                out.append(Res(q2, VKeys(v.t, ka, n, False)))
         elif isinstance(v, VList):
             out.append(Res(q, v))
         else:
@@ -639,7 +641,8 @@ def h_dict_new(eng, p, fc, node, self_v, args, kwargs):
 def h_deque_new(eng, p, fc, node, self_v, args, kwargs):
     from .engine import Res
     d = alloc(p, 'deque')
-    gset(p, d, '$items', VList(z3.Empty(z3.SeqSort(I)), 'ref'))
+    p.heap['$dqh'] = z3.Store(harr(p, '$dqh'), d.t, 0)
+    p.heap['$dqt'] = z3.Store(harr(p, '$dqt'), d.t, 0)
     return [Res(p, d)]
 
 
@@ -663,8 +666,9 @@ def h_dict_get(eng, p, fc, node, self_v, args, kwargs):
 
 def h_dict_items(eng, p, fc, node, self_v, args, kwargs):
     from .engine import Res
-    from .engine_stmt import VItems
-    return [Res(p, VItems(self_v.t, dict_keys_seq(eng, p, self_v.t)))]
+    from .engine_stmt import VKeys
+    ka, n = dict_keys_arr(eng, p, self_v.t)
+    return [Res(p, VKeys(self_v.t, ka, n, True))]
 
 
 def h_deque_append(eng, p, fc, node, self_v, args, kwargs):
@@ -673,25 +677,28 @@ def h_deque_append(eng, p, fc, node, self_v, args, kwargs):
     for (q, vs) in resolve_all(eng, p, args[:1]):
         if not isinstance(vs[0], VRef):
             raise Unsupported('deque of non-references')
-        cur = eng.deque_items(q, self_v)
-        gset(q, self_v, '$items', VList(z3.Concat(cur, z3.Unit(vs[0].t)), 'ref'))
+        eng.deque_len(q, self_v)
+        t = z3.Select(harr(q, '$dqt'), self_v.t)
+        q.heap['$dq'] = z3.Store(harr(q, '$dq'), self_v.t, t, vs[0].t)
+        q.heap['$dqt'] = z3.Store(harr(q, '$dqt'), self_v.t, t + 1)
         out.append(Res(q, VNone()))
     return out
 
 
 def h_deque_popleft(eng, p, fc, node, self_v, args, kwargs):
     from .engine import Res
-    cur = eng.deque_items(p, self_v)
+    n = eng.deque_len(p, self_v)
     out = []
-    empty = z3.Length(cur) == 0
+    empty = n == 0
     if feasible(p, empty):
         q = p.fork()
         q.assume(empty)
         out.append(eng.raise_(q, 'IndexError', 'pop from an empty deque: ' + eng.src(node)))
     p.assume(z3.Not(empty))
-    r = VRef(cur[0])
+    h = z3.Select(harr(p, '$dqh'), self_v.t)
+    r = VRef(z3.Select(harr(p, '$dq'), self_v.t, h))
     eng.wf_value(p, r)
-    gset(p, self_v, '$items', VList(z3.Extract(cur, 1, z3.Length(cur) - 1), 'ref'))
+    p.heap['$dqh'] = z3.Store(harr(p, '$dqh'), self_v.t, h + 1)
     out.append(Res(p, r))
     return out
 
